@@ -228,6 +228,90 @@ fn window_secs() -> Vec<i64> {
     v
 }
 
+/// The other places where an instant given by the caller is recorded: changelog times (with and without a source date,
+/// before and after it) and the creation time of the OpenPGP signature (before and after the signing key's own creation).
+fn recorded_instants(ctx: &Ctx) -> SubReport {
+    use chrono::TimeZone;
+    let mut acc = Acc::new();
+    let grid: [u32; 12] = [0, 1, 86_399, 1_000_000_000, 1_599_999_999, 1_600_000_000, 1_600_000_001, 1_742_000_000, 1_800_000_000, (1u32 << 31) - 1, 1 << 31, u32::MAX];
+    let mut rank = 0u64;
+    // changelog entries
+    for sd in [None, Some(0u32), Some(1_600_000_000), Some(u32::MAX)] {
+        for t in grid {
+            for form in ["u32", "chrono +05:30", "chrono -08:00 with 999 ms", "SystemTime with 999 999 999 ns"] {
+                rank += 1;
+                acc.evals += 1;
+                let case = json!({"kind": "changelog", "source_date": sd, "changelog_time": t, "given_as": form});
+                let r = catch(|| {
+                    let mut b = rpm::PackageBuilder::new("t", "1", "MIT", "noarch", "s").compression(rpm::CompressionType::None);
+                    if let Some(s) = sd {
+                        b = b.source_date(s);
+                    }
+                    b = match form {
+                        "u32" => b.add_changelog_entry("A <a@b>", "- x", t),
+                        "chrono +05:30" => b.add_changelog_entry("A <a@b>", "- x", chrono::FixedOffset::east_opt(19_800).unwrap().timestamp_opt(t as i64, 0).unwrap()),
+                        "chrono -08:00 with 999 ms" => b.add_changelog_entry("A <a@b>", "- x", chrono::FixedOffset::west_opt(28_800).unwrap().timestamp_opt(t as i64, 999_000_000).unwrap()),
+                        _ => b.add_changelog_entry("A <a@b>", "- x", std::time::UNIX_EPOCH + std::time::Duration::new(t as u64, 999_999_999)),
+                    };
+                    let p = b.build()?;
+                    p.metadata.get_changelog_entries().map(|v| v.first().map(|e| e.timestamp))
+                });
+                match r {
+                    Err(pn) => acc.viol(panic_violation("recorded-instants", &pn, case).rank(rank)),
+                    Ok(Err(e)) => acc.viol(Violation::new("recorded-instants", format!("a changelog time inside the range is refused: {}", e), case).sig("clause", "changelog-time").rank(rank)),
+                    Ok(Ok(got)) => {
+                        acc.nontrivial += 1;
+                        acc.count("changelog time read back");
+                        if got != Some(t as u64) && got.map(|g| g as u64) != Some(t as u64) {
+                            acc.viol(Violation::new("recorded-instants", format!("changelog entry at second {} is recorded as {:?}", t, got), case).sig("clause", "changelog-time").rank(rank));
+                        }
+                    }
+                }
+            }
+        }
+    }
+    // signature creation time
+    let env = crate::spec::Env::new(&ctx.repo, "c20s");
+    let base = crate::corpus::one_file().build(&env).unwrap_or_else(|e| crate::ctx::machinery(&format!("c20: {}", e)));
+    for key in [crate::keys::Key::Ed25519, crate::keys::Key::EcdsaP256] {
+        for t in grid {
+            for via in ["sign_with_timestamp", "build_and_sign with this source date"] {
+                rank += 1;
+                acc.evals += 1;
+                let case = json!({"kind": "signature-time", "key": key.name(), "requested_second": t, "via": via});
+                let now_secs = || std::time::SystemTime::now().duration_since(std::time::UNIX_EPOCH).map(|d| d.as_secs()).unwrap_or(0);
+                let now_before = now_secs();
+                let r = catch(|| {
+                    let p = if via == "sign_with_timestamp" {
+                        let mut p = base.clone();
+                        p.sign_with_timestamp(env.signer(key), t)?;
+                        p
+                    } else {
+                        rpm::PackageBuilder::new("t", "1", "MIT", "noarch", "s").compression(rpm::CompressionType::None).source_date(t).build_and_sign(env.signer(key))?
+                    };
+                    let mut x = vec![];
+                    p.write(&mut x)?;
+                    Ok::<_, rpm::Error>(crate::c11::timestamps(&x).into_iter().filter(|(n, _)| n.starts_with("signature creation time")).map(|(_, v)| v).collect::<Vec<u32>>())
+                });
+                match r {
+                    Err(pn) => acc.viol(panic_violation("recorded-instants", &pn, case).rank(rank)),
+                    Ok(Err(e)) => acc.count(&format!("signing refused: {}", e).chars().take(60).collect::<String>()),
+                    Ok(Ok(times)) => {
+                        acc.nontrivial += 1;
+                        acc.count("signature time decoded");
+                        // build_and_sign clamps: the source date if it is in the past, the current time otherwise
+                        let fine = |x: u32| x == t || (via != "sign_with_timestamp" && (t as u64) >= now_before && (x as u64) >= now_before && (x as u64) <= now_secs());
+                        if times.is_empty() || times.iter().any(|x| !fine(*x)) {
+                            acc.viol(Violation::new("recorded-instants", format!("signature requested for second {} carries the creation time(s) {:?}", t, times), case).sig("clause", "signature-time").rank(rank));
+                        }
+                    }
+                }
+            }
+        }
+    }
+    SubReport::new("recorded-instants", "A", "the other places where a caller's instant is recorded. Changelog entries: 12 seconds from 0 to 2^32−1 × given as integer, as zoned chrono values (one with a sub-second part) and as SystemTime with 999 999 999 ns × source date ∈ {none, 0, 1 600 000 000, 2^32−1}: get_changelog_entries returns the whole second, whatever the source date. OpenPGP signatures: the same 12 seconds (before and after the signing keys' own creation in 2025) × 2 keys × {sign_with_timestamp, build_and_sign with that source date}: the signature's creation-time subpacket is that second (build_and_sign with a source date in the future: the current time, as documented clamping)", acc)
+}
+
 fn builder_path(ctx: &Ctx) -> SubReport {
     // with_file converts the source file's mtime: −1 s and 2^32 must make it fail, 0 and 2^32−1 not.
     let mut acc = Acc::new();
@@ -441,6 +525,7 @@ pub fn run(ctx: &Ctx) -> i32 {
         ));
     }
     subs.push(builder_path(ctx));
+    subs.push(recorded_instants(ctx));
     ctx.finish(
         "exploration",
         subs,
